@@ -63,6 +63,47 @@ fn check_node(e: &Element<String>, r: &RNode, ancestors: &mut Vec<String>, w: &m
     if single_caps_word && cased.len() >= 3 && cased.iter().all(|c| c.is_uppercase()) {
         return Err(format!("`{}` (element `{}`) is all capitals, not a PascalCase form", own, e.name));
     }
+    // word structure that every PascalCase convention shares, checked letter by letter when the form maps 1:1 onto the
+    // name's letters and digits: a cased letter behind a separator starts a word (upper case); an upper-case letter that
+    // is not preceded by another upper-case letter and is directly followed by a lower-case letter starts a word as well
+    // (`S3Bucket`, `fooBar`; not claimed for `XMLHttp` / `AÑo`, where conventions differ and convert_string lowers it) and stays upper
+    // case; a lower-case letter directly behind a lower-case letter is inside a word and stays lower case
+    {
+        let src: Vec<(char, bool)> = {
+            let mut v = Vec::new();
+            let mut after_sep = false;
+            for c in e.name.chars() {
+                if c.is_alphanumeric() {
+                    v.push((c, after_sep));
+                    after_sep = false;
+                } else {
+                    after_sep = true;
+                }
+            }
+            v
+        };
+        let out: Vec<char> = own.chars().collect();
+        let same_letters = src.len() == out.len() && src.iter().zip(out.iter()).all(|((a, _), b)| a.to_lowercase().eq(b.to_lowercase()));
+        if same_letters {
+            for i in 0..src.len() {
+                let (c, after_sep) = src[i];
+                let o = out[i];
+                let cased = c.is_uppercase() || c.is_lowercase();
+                if !cased {
+                    continue;
+                }
+                if after_sep && o.is_lowercase() {
+                    return Err(format!("PascalCase form `{}` of element `{}`: the letter `{}` behind a separator starts a word but is lower case", own, e.name, o));
+                }
+                if c.is_uppercase() && (i == 0 || after_sep || !src[i - 1].0.is_uppercase()) && i + 1 < src.len() && src[i + 1].0.is_lowercase() && !src[i + 1].1 && o.is_lowercase() {
+                    return Err(format!("PascalCase form `{}` of element `{}`: `{}{}` starts a word in the name but `{}` is lower case in the form", own, e.name, c, src[i + 1].0, o));
+                }
+                if c.is_lowercase() && i > 0 && src[i - 1].0.is_lowercase() && !after_sep && o.is_uppercase() {
+                    return Err(format!("PascalCase form `{}` of element `{}`: `{}` is inside a word of the name but upper case in the form", own, e.name, c));
+                }
+            }
+        }
+    }
     let name = &r.struct_name;
     // find j such that name == P(e_{k-j}) .. P(e_k) + digits
     let mut found: Option<usize> = None;
@@ -203,7 +244,7 @@ impl Property for C14 {
     }
     fn assumptions(&self) -> Vec<String> {
         vec![
-            "PascalCase form = Element::formatted_name() (convert_string), sanity-checked structurally: exactly the name's letters and digits, no separators, first character upper/uncased, a single all-capitals word of three or more cased letters must not stay all capitals (two-letter acronyms and multi-word names such as a.b.c -> ABC are fine)".into(),
+            "PascalCase form = Element::formatted_name() (convert_string), sanity-checked structurally: exactly the name's letters and digits, no separators, first character upper/uncased, a single all-capitals word of three or more cased letters must not stay all capitals (two-letter acronyms and multi-word names such as a.b.c -> ABC are fine), a letter behind a separator and an upper-case letter directly followed by a lower-case one and not preceded by an upper-case one start a word (upper case in the form), a lower-case letter directly behind a lower-case letter stays lower case".into(),
             "names avoid code points whose case mapping changes length".into(),
             "a disambiguating suffix is a run of ASCII digits and underscores".into(),
         ]
